@@ -241,10 +241,16 @@ def vh(args, flavour="release", timeout=1800, env=None, stdin=None, check=True, 
     e["VERIF_SEED"] = str(seed())
     if env:
         e.update({k: str(v) for k, v in env.items()})
+    def _limit():
+        # safety net: a runaway scenario must end as a tool error, not exhaust the machine
+        import resource
+        cap = int(os.environ.get("VERIF_MEM_GB", "12")) << 30
+        resource.setrlimit(resource.RLIMIT_AS, (cap, cap))
+
     try:
         p = subprocess.run([binp] + [str(a) for a in args], cwd=ROOT, env=e, input=stdin,
                            stdout=subprocess.PIPE, stderr=subprocess.PIPE, timeout=timeout,
-                           text=True, errors="replace")
+                           text=True, errors="replace", preexec_fn=_limit)
     except subprocess.TimeoutExpired as ex:
         raise ToolError("harness timeout: vh " + " ".join(map(str, args))) from ex
     if check and p.returncode != 0:
